@@ -8,7 +8,7 @@
 #include "../engine/vsched.h"
 
 #define MAX_FIBERS 24
-#define MAX_OPS 96
+#define MAX_OPS 256
 #define MAX_CFG 32
 
 typedef struct op {
